@@ -152,6 +152,11 @@ def constructed(rng):
         t = rng.randrange(0, 19)
         dd(x, t, P10[s], s)
         dd(x, t, -P10[s], s)
+        for w in G.trunc_twins(rng, rng.choice((P10[s], -P10[s], 0)))[::2]:
+            # agrees with one / zero in its low 32 / 64 / 96 bits only
+            xs = rng.choice((3, -7, rng.randrange(-10 ** 6, 10 ** 6) or 1))
+            dd(xs, t, w, s)
+            dd(w, s, xs, t)
         dd(0, s, x, t)
         dd(x, t, 0, s)
         dd(0, s, 0, t)
@@ -201,6 +206,7 @@ def gen(rng, tier, shard, batch):
         # the rare corners of the multi-word division, constructed algebraically (vf/knuth.py)
         reqs += K.api_corner_requests(rng, 4 if tier == "quick" else 10, G.fD)
         reqs += K.hi_eq_divisor_requests(rng, 4 if tier == "quick" else 10, G.fD)
+        reqs += [r for r in K.est_gt_b_requests(rng, 3 if tier == "quick" else 8, G.fD)[0] if r.split()[0] in ("div", "cdiv")]
         # scaled dividend whose top 64-bit word is a multiple of the (64-bit) divisor and whose next word is below it
         for op, l, r, n in K.api_small_divisor_top_word(rng, 4 if tier == "quick" else 10, G.fD, 18):
             if op == "divr":
